@@ -187,6 +187,36 @@ def frag_corrupt_sessions(rnd):
     return out
 
 
+def upload_corrupt_sessions(rnd, n):
+    """open() (with its tag list upload) one of whose symbol-list / template replies carries an encapsulation error in front
+    of a complete CIP body, or is truncated: the upload did not complete normally."""
+    from .. import session
+    from . import logix_rw
+    out = []
+    for i in range(n):
+        sc = logix_rw.session(rnd, 900 + i, prefix="uc", n_calls=0, caps=False, n_tags=rnd.choice([3, 12, 40]))
+        sc["calls"] = [{"api": "open"}, {"api": "close"}]
+        tr = session.run_scenario(sc)
+        ordinal, cand, last_tx = 0, [], None
+        for e in tr["events"]:
+            if e["k"] == "tx":
+                last_tx = e["b"]
+            if e["k"] in ("rx", "lost"):
+                ordinal += 1
+                if last_tx and len(last_tx) > 46 and last_tx[0] == 0x70 and last_tx[46] in (0x55, 0x4C, 0x03):
+                    cand.append((ordinal, last_tx[46]))
+        sym = [k for k, svc in cand if svc == 0x55]
+        if not sym:
+            continue
+        k = rnd.choice(sym) if i % 3 else rnd.choice([c[0] for c in cand])
+        sc2 = json.loads(json.dumps(sc))
+        sc2["id"] = "uc%d" % i
+        sc2["family"] = "upload-encap-error"
+        sc2["target"]["corrupt"] = {str(k): ["status32", rnd.choice([1, 0x64, 0x65, 0x10000])]}
+        out.append(sc2)
+    return out
+
+
 def run(ctx):
     thorough = ctx.tier == "thorough"
     rnd = random.Random(ctx.seed * 1009 + 13)
@@ -198,6 +228,7 @@ def run(ctx):
     try:
         from . import logix_rw
         scs += logix_rw.inject_sessions(rnd, 400 if thorough else 60)
+        scs += upload_corrupt_sessions(rnd, 60 if thorough else 10)
     except ImportError:
         pass
     scs += tag_corrupt_sessions(rnd, 1200 if thorough else 200)
